@@ -66,6 +66,7 @@ def main():
         ps.append(p)
     t0 = time.time()
     res: dict = {}
+    phase = {"now": "startup"}      # until every executor has registered (Bridge.__init__), no task body (hence no fault) has run
 
     def watchdog():
         time.sleep(float(sc.get("deadline", 12)))
@@ -74,18 +75,19 @@ def main():
             import traceback
             main_frames = [f for tid, f in sys._current_frames().items() if tid == threading.main_thread().ident]
             where = "".join(traceback.format_stack(main_frames[0])[-4:]) if main_frames else ""
-            print("RESULT " + json.dumps({"outcome": "hang", "wall": round(time.time() - t0, 2),
+            print("RESULT " + json.dumps({"outcome": "hang", "wall": round(time.time() - t0, 2), "phase": phase["now"],
                                           "in_recv_events": "recv_events" in where or "recv_messages" in where}), flush=True)
             os._exit(3)
 
     threading.Thread(target=watchdog, daemon=True).start()
     try:
         b = Bridge(c, sc["hosts"])
+        phase["now"] = "running"
         st = run(job, b, pre)
         vals = {repr(k): v for k, v in st.outputs.items()}
         res.update(outcome="ok", values_ok=vals == bodies.EXPECTED, values=repr(vals)[:200])
     except BaseException as e:
-        res.update(outcome="error", what=(type(e).__name__ + ":" + str(e))[:160])
+        res.update(outcome="error", what=(type(e).__name__ + ":" + str(e))[:160], phase=phase["now"])
     res["wall"] = round(time.time() - t0, 2)
     alive = []
     for p in ps:
